@@ -1,4 +1,5 @@
 import PpciVerif.Proofs.CLower
+import PpciVerif.Proofs.CLayout
 import PpciVerif.Gen.CTypes
 /-!
 # C01 — the C front-end preserves the meaning of defined-behaviour C programs
@@ -36,22 +37,57 @@ theorem tables_match_source :
       [⟨"x86_64", "ok",
         Model.CType.Ty.all.map (fun τ => ⟨τ.id, τ.size, τ.align, (irTy τ).name⟩) ++
           [⟨"float", 4, 4, "f32"⟩, ⟨"double", 8, 8, "f64"⟩],
-        8, 8, Model.CType.sizeofType.id, Model.CType.sizeTType.id⟩] := by
+        8, 8, Model.CType.sizeofType.id, Model.CType.sizeTType.id⟩] ∧
+    (∀ p ∈ Model.CLayout.Prim.all, p ≠ .ptr →
+      ∃ r ∈ Gen.CTypes.archs, r.name = "x86_64" ∧ ∃ t ∈ r.types, t.tid = p.id ∧ t.size = p.size ∧ t.align = p.align) ∧
+    (∃ r ∈ Gen.CTypes.archs, r.name = "x86_64" ∧ r.ptrSize = Model.CLayout.Prim.ptr.size ∧
+      r.ptrAlign = Model.CLayout.Prim.ptr.align) := by
   decide +kernel
 
-/-- **The IR type of an integer C type has its width and its signedness, on every target** whose C front-end can
-    be built (`CCodeGenerator.ir_type_map` against `CContext.type_size_map` and `BasicType.SIGNED_INTEGER_TYPES`). -/
-theorem ir_types_consistent :
+/-- full statement: the IR type of an integer C type has its width and its signedness, on every target whose C
+    front-end can be built (`CCodeGenerator.ir_type_map` against `CContext.type_size_map` and
+    `BasicType.SIGNED_INTEGER_TYPES`).  NOT shown: false for `unsigned int` on msp430 (known finding
+    `cirtype:msp430:unsigned int`: `uint_types = {2: ir.i16, …}` maps it to the SIGNED i16). -/
+def ir_types_consistent_full : Prop :=
+  ∀ r ∈ Gen.CTypes.archs, ∀ t ∈ r.types, t.tid ∈ Gen.CTypes.integerTypes →
+    irInfo t.irTy = some (8 * t.size, decide (t.tid ∈ Gen.CTypes.signedTypes))
+
+/-- the full statement for every (target, type) except the one of the open finding -/
+theorem ir_types_consistent_partial :
     ∀ r ∈ Gen.CTypes.archs, ∀ t ∈ r.types, t.tid ∈ Gen.CTypes.integerTypes →
+      ¬ (r.name = "msp430" ∧ t.tid = "unsigned int") →
       irInfo t.irTy = some (8 * t.size, decide (t.tid ∈ Gen.CTypes.signedTypes)) := by
   decide +kernel
 
-/-- **`sizeof` has an unsigned type of the width of `size_t_type`, on every target** (6.5.3.4p5) -/
-theorem sizeof_type_unsigned :
+/-- witness of the open finding: the dumped msp430 row says `unsigned int` ↦ `i16` -/
+example : ∃ r ∈ Gen.CTypes.archs, r.name = "msp430" ∧ ∃ t ∈ r.types, t.tid = "unsigned int" ∧ t.irTy = "i16" ∧
+    irInfo t.irTy ≠ some (8 * t.size, decide (t.tid ∈ Gen.CTypes.signedTypes)) := by
+  decide +kernel
+example : ¬ ir_types_consistent_full := by unfold ir_types_consistent_full; decide +kernel
+
+/-- full statement: `sizeof` has an unsigned type of the width of `size_t_type` (6.5.3.4p5), on every target.
+    NOT shown: false on EVERY target (known finding `ctype:sizeof:signed`: `on_sizeof` gives the expression
+    `size_t_type`, which is `int` or `long`). -/
+def sizeof_type_unsigned_full : Prop :=
+  ∀ r ∈ Gen.CTypes.archs, r.status = "ok" →
+    r.sizeofTy ∈ Gen.CTypes.integerTypes ∧ r.sizeofTy ∉ Gen.CTypes.signedTypes ∧
+    (r.types.filter (fun t => t.tid == r.sizeofTy)).map (·.size) = (r.types.filter (fun t => t.tid == r.sizeT)).map (·.size)
+
+/-- what does hold: `sizeof` has an integer type as wide as `size_t_type` on every target -/
+theorem sizeof_type_width_partial :
     ∀ r ∈ Gen.CTypes.archs, r.status = "ok" →
-      r.sizeofTy ∈ Gen.CTypes.integerTypes ∧ r.sizeofTy ∉ Gen.CTypes.signedTypes ∧
+      r.sizeofTy ∈ Gen.CTypes.integerTypes ∧
       (r.types.filter (fun t => t.tid == r.sizeofTy)).map (·.size) = (r.types.filter (fun t => t.tid == r.sizeT)).map (·.size) := by
   decide +kernel
+
+/-- witnesses of the open finding: the type is signed on every buildable target; on x86_64 the model (tied to the dump
+    by `tables_match_source`) types `sizeof` as `long` where C says `unsigned long`, and `(sizeof(int) - 5) > 0` —
+    1 in C — is compiled to code that yields 0 -/
+example : ∀ r ∈ Gen.CTypes.archs, r.status = "ok" → r.sizeofTy ∈ Gen.CTypes.signedTypes := by decide +kernel
+example : (Model.CType.onSizeof 4).ty = .long ∧ typeOf (.szof 4) = some .ulong := by decide
+example : eval (fun _ => 0) (.bin .gt (.bin .sub (.szof 4) (.lit .dec .none 5)) (.lit .dec .none 0)) = some 1 ∧
+    (compile (toSrc (.bin .gt (.bin .sub (.szof 4) (.lit .dec .none 5)) (.lit .dec .none 0)))).map
+      (ieval (fun _ => 0)) = some (some 0) := by decide +kernel
 
 /-! ### typing -/
 
@@ -84,7 +120,7 @@ theorem typing_cond_table :
 /-- **Typing of every expression**: whatever C types, ppci's semantics elaborates (it never rejects it) and
     gives it C's type — integer promotions, usual arithmetic conversions, types of integer and character
     constants, result types of shifts / comparisons / `?:`, for arbitrarily nested expressions over variables of
-    the 11 integer types.  (`sizeof`: see `sizeof_type_partial`.) -/
+    the 11 integer types.  (`sizeof` is excluded: open finding, see `sizeof_type_unsigned_full`.) -/
 theorem typing_agrees_partial (e : Expr) (σ : STy) (hn : Proofs.CLower.NoSizeof e) (h : typeOf e = some σ) :
     ∃ t, elaborate (toSrc e) = some t ∧ t.ty = M σ := by
   obtain ⟨t, ht⟩ := Proofs.CLower.sound_partial e σ hn h
@@ -109,5 +145,78 @@ theorem values_agree_partial (e : Expr) (σ : STy) (hn : Proofs.CLower.NoSizeof 
 theorem spec_extends_CInt (e : Spec.CInt.Expr) (ρ : Nat → Int) :
     typeOf (Spec.CExpr.ofConst e) = Spec.CInt.typeOf e ∧ eval ρ (Spec.CExpr.ofConst e) = Spec.CInt.eval e :=
   ⟨Proofs.CExpr.typeOf_ofConst e, Proofs.CExpr.eval_ofConst ρ e⟩
+
+/-! ### non-vacuity and the defects repaired by 21f7d05 -/
+
+/-- the hypotheses of the value theorem are satisfiable by a non-trivial input:
+    `(signed char)-1 < (unsigned char)1` is typed `int`, defined, and has the value 1 -/
+example : Proofs.CLower.NoSizeof (.bin .lt (.var .schar 0) (.var .uchar 1)) ∧
+    typeOf (.bin .lt (.var .schar 0) (.var .uchar 1)) = some .int ∧
+    eval (fun i => if i = 0 then -1 else 1) (.bin .lt (.var .schar 0) (.var .uchar 1)) = some 1 := by
+  refine ⟨⟨trivial, trivial⟩, by decide, by decide⟩
+
+/-- before 21f7d05 the comparison operands were not promoted: the node differs from what C prescribes, and its code
+    computes 0 for `(signed char)-1 < (unsigned char)1` (both operands converted to `unsigned char`) -/
+example : Model.CType.Legacy.onBinop .lt (.var .char 0) (.var .uchar 1) ≠ expectedBin .lt .char .uchar ∧
+    ieval (fun i => if i = 0 then -1 else 1) (lower (Model.CType.Legacy.onBinop .lt (.var .char 0) (.var .uchar 1))) = some 0 := by
+  decide +kernel
+
+/-- before 21f7d05 a shift had the common type of both operands: `(int)-8 >> (unsigned)1` was an unsigned shift -/
+example : Model.CType.Legacy.onBinop .shr (.var .int 0) (.var .uint 1) ≠ expectedBin .shr .int .uint ∧
+    ieval (fun i => if i = 0 then -8 else 1) (lower (Model.CType.Legacy.onBinop .shr (.var .int 0) (.var .uint 1))) = some 2147483644 ∧
+    eval (fun i => if i = 0 then -8 else 1) (.bin .shr (.var .int 0) (.var .uint 1)) = some (-4) := by
+  decide +kernel
+
+/-- before 21f7d05 `long long` vs `unsigned long` took the higher rank: `(long long)-1 < (unsigned long)1` gave 1 -/
+example : Model.CType.Legacy.onBinop .lt (.var .llong 0) (.var .ulong 1) ≠ expectedBin .lt .llong .ulong ∧
+    ieval (fun i => if i = 0 then -1 else 1) (lower (Model.CType.Legacy.onBinop .lt (.var .llong 0) (.var .ulong 1))) = some 1 ∧
+    eval (fun i => if i = 0 then -1 else 1) (.bin .lt (.var .llong 0) (.var .ulong 1)) = some 0 := by
+  decide +kernel
+
+/-- before 21f7d05 unary `-` and `~` kept the operand type: `-c` with `unsigned char c = 1` was an 8-bit negation
+    (255 instead of -1; the x86-64 back-end has no such instruction: "NEGU8 not covered") -/
+example : Model.CType.Legacy.onUnop .minus (.var .uchar 0) ≠ expectedUn .neg .uchar ∧
+    ieval (fun _ => 1) (lower (Model.CType.Legacy.onUnop .minus (.var .uchar 0))) = some 255 ∧
+    eval (fun _ => 1) (.un .neg (.var .uchar 0)) = some (-1) := by
+  decide +kernel
+
+/-- before 21f7d05 the condition of `?:` was truncated to `int`: `0x100000000L ? 1 : 2` gave 2 -/
+example : ieval (fun _ => 4294967296)
+      (lower (Model.CType.Legacy.onTernop (.var .long 0) (.num .int 1) (.num .int 2))) = some 2 ∧
+    eval (fun _ => 4294967296) (.cond (.var .long 0) (.lit .dec .none 1) (.lit .dec .none 2)) = some 1 := by
+  decide +kernel
+
+/-! ### layout -/
+
+/-- **Object layout = System V.**  For every struct / union / array type over the basic types and pointers (no
+    bit-fields, no anonymous members), of any nesting: `CContext.sizeof`, `CContext.alignment` and every
+    `CContext.offsetof` — computed by the bit-counting loop of `layout_struct` with `required_padding` — are the
+    psABI values: members at the lowest offset aligned for them, alignment of the most strictly aligned member, and
+    size rounded up to a multiple of the alignment (holds since `fix:` 755c1e7). -/
+theorem layout_agrees (t : Model.CLayout.LTy) :
+    Model.CLayout.sizeof t = Spec.CLayout.sizeOf (ltyS t) ∧
+    Model.CLayout.alignment t = Spec.CLayout.alignOf (ltyS t) ∧
+    Model.CLayout.offsets t = Spec.CLayout.offsetsOf (ltyS t) :=
+  ⟨(Proofs.CLayout.ty_ok t).size, (Proofs.CLayout.ty_ok t).align, Proofs.CLayout.offsets_ok t⟩
+
+/-- consequence: every size is a multiple of the alignment (array elements stay aligned) -/
+theorem size_multiple_of_alignment (fs : Model.CLayout.Fields) :
+    Model.CLayout.sizeof (.struct fs) % Model.CLayout.alignment (.struct fs) = 0 := by
+  rw [(Proofs.CLayout.ty_ok (.struct fs)).size, (Proofs.CLayout.ty_ok (.struct fs)).align]
+  simp only [ltyS, Spec.CLayout.sizeOf, Spec.CLayout.alignOf, Spec.CLayout.roundUp]
+  exact Nat.mul_mod_left _ _
+
+/-- non-trivial instance: `struct { char x; struct { int a; char b; } s; char y; }` is 16 bytes, aligned 4, members at 0, 4, 12 -/
+example : Model.CLayout.sizeof (.struct (.cons (.prim .char) (.cons (.struct (.cons (.prim .int) (.cons (.prim .char) .nil)))
+      (.cons (.prim .char) .nil)))) = 16 ∧
+    Model.CLayout.offsets (.struct (.cons (.prim .char) (.cons (.struct (.cons (.prim .int) (.cons (.prim .char) .nil)))
+      (.cons (.prim .char) .nil)))) = [0, 4, 12] := by decide
+
+/-- before 755c1e7 the final padding went to the next byte only: `sizeof(struct { int a; char b; })` was 5 (System V: 8),
+    `sizeof(union { char c[5]; int i; })` was 5 (System V: 8) -/
+example : Model.CLayout.Legacy.structSize (.cons (.prim .int) (.cons (.prim .char) .nil)) = 5 ∧
+    Spec.CLayout.sizeOf (.struct (.cons (.prim .int) (.cons (.prim .char) .nil))) = 8 ∧
+    Model.CLayout.Legacy.unionSize (.cons (.arr (.prim .char) 5) (.cons (.prim .int) .nil)) = 5 ∧
+    Spec.CLayout.sizeOf (.union (.cons (.arr (.prim .char) 5) (.cons (.prim .int) .nil))) = 8 := by decide
 
 end Props.C01
